@@ -234,6 +234,39 @@ fn random_history(rng: &mut Rng, keys: &[SigningKey], max_len: usize, small: boo
         let at = rng.below(order.len() as u64 + 1) as usize;
         order.insert(at, i);
     }
+    // author-signed operations that point at a real entry but do not sit directly behind it:
+    // backlink = hash of the honest operation at seq j, seq = j + k with k in 2..=5 (skips ahead,
+    // leaving a gap) or k in -3..=0 (at / below it); unflagged and prune-flagged variants. They are
+    // delivered right after their target (which then usually is the stored latest entry) or at a
+    // random point.
+    let n_skip = rng.range(0, (n_honest as u64 / 4).max(2)) as usize;
+    for _ in 0..n_skip {
+        let j = rng.below(n_honest as u64) as usize;
+        let target = decls[j].op.clone();
+        let key = keys.iter().find(|k| k.verifying_key() == target.header.verifying_key).unwrap();
+        let k: i64 = if rng.chance(2, 3) { rng.range(2, 5) as i64 } else { -(rng.range(0, 3) as i64) };
+        let seq = (target.header.seq_num as i64 + k).max(0) as u32;
+        let flag = rng.chance(1, 4);
+        let bl = if seq == 0 { None } else { Some(target.header.hash()) };
+        let op = mk_op(rng, key, log_of(&target), seq, bl, flag);
+        if decls.iter().any(|d| d.op.hash == op.hash) {
+            continue;
+        }
+        let class: &'static str = match (k >= 2, flag) {
+            (true, false) => "skip-ahead",
+            (true, true) => "skip-ahead-flagged",
+            (false, false) => "skip-back",
+            (false, true) => "skip-back-flagged",
+        };
+        let idx = decls.len();
+        decls.push(Decl { op, class });
+        let at = if rng.chance(3, 4) {
+            order.iter().position(|x| *x == j).map(|p| p + 1).unwrap_or(order.len())
+        } else {
+            rng.below(order.len() as u64 + 1) as usize
+        };
+        order.insert(at, idx);
+    }
     // late re-deliveries of arbitrary honest operations (old ones, pruned ones, dropped ones)
     let n_late = rng.range(0, (n_honest as u64 / 2).max(1));
     for _ in 0..n_late {
@@ -653,7 +686,7 @@ fn main() {
     }
     out.extra.insert("permutation_histories".into(), exhaustive.into());
     out.finish(
-        "universes of honest chains (1-4 authors x 1-3 logs x up to 14 (thorough 25) operations, prune flags with probability 0 / 0.15 / 0.33) delivered through the real Ingest and LogPrune processors: random interleaving, drops, immediate duplicates, late re-deliveries, forged copies (key, backlink, seq, flag, signature), equivocations, foreign copies; 30 % fully shuffled; prune steps immediately / delayed by 1-5 deliveries / dropped; plus every delivery order of small universes (3-6 operations, 1-2 prune points) and the C05 witness. non-trivial = at least two of: an out-of-order delivery accepted, a forged copy rejected, a prune-flagged operation delivered after a larger prune point",
+        "universes of honest chains (1-4 authors x 1-3 logs x up to 14 (thorough 25) operations, prune flags with probability 0 / 0.15 / 0.33) delivered through the real Ingest and LogPrune processors: random interleaving, drops, immediate duplicates, late re-deliveries, forged copies (key, backlink, seq, flag, signature), equivocations, foreign copies, author-signed skip-ahead / skip-back operations (backlink = hash of a real entry at seq j, seq = j+2..j+5 or j-3..j, with and without prune flag) delivered right behind their target; 30 % fully shuffled; prune steps immediately / delayed by 1-5 deliveries / dropped; plus every delivery order of small universes (3-6 operations, 1-2 prune points) and the C05 witness. non-trivial = at least two of: an out-of-order delivery accepted, a forged copy rejected, a prune-flagged operation delivered after a larger prune point",
         false,
     );
 }
